@@ -77,6 +77,9 @@ def tok16_classify(line, impl, mobs, extra):
 def c02_streams(tier, seed):
     q = tier == "quick"
     return [(["tok", "c01", str(seed), "600" if q else "20000"], tok_classifier("C02", lattice_paths_ge2)),
+            # word / matrix costs around +-30000, raw bigram entries around +-60000: prefix costs at one boundary differ by more
+            # than 2^15 and connection costs leave the i16 range
+            (["tok", "c02x", str(seed + 3), "500" if q else "10000"], tok_classifier("C02", lattice_paths_ge2)),
             # boundaries with 65536 / 65537 nodes: the u16 back pointer (finding F15); 18 s of model time per case
             (["tok", "u16", str(seed), "2" if q else "5"], tok16_classify)]
 
